@@ -21,7 +21,8 @@ Definition merge_params (i o : params) : params :=
     (if is_nil (p_dpop_jkt i) then p_dpop_jkt o else p_dpop_jkt i)
     (nz (p_login_hint i) (p_login_hint o))
     (if is_nil (p_notif_token i) then p_notif_token o else p_notif_token i)
-    (nz (p_user_code i) (p_user_code o)).
+    (nz (p_user_code i) (p_user_code o))
+    (if no_res (p_resources i) then p_resources o else p_resources i).
 
 Definition redirect_allowed (c : client) (u : string) : bool := mem u (c_redirects c).
 
@@ -53,6 +54,9 @@ Definition validate_optionals (cfg : config) (p : params) (c : client) : option 
   (* code challenge method *)
   if andb (negb (is_empty (p_method p))) (negb (mem (p_method p) (cf_pkce_methods cfg)))
   then Some (ARedirect EInvalidRequest p) else
+  (* resources: every requested one must be configured *)
+  if andb (cf_resource_enabled cfg) (andb (negb (no_res (p_resources p))) (negb (subset (p_resources p) (cf_resources cfg))))
+  then Some (ARedirect EInvalidTarget p) else
   None.
 
 Definition validate_params (cfg : config) (p : params) (c : client) : option aerr :=
@@ -61,7 +65,7 @@ Definition validate_params (cfg : config) (p : params) (c : client) : option aer
   | Some e => Some e
   | None =>
     if is_empty (p_resp_type p) then Some (ARedirect EInvalidRequest p) else
-    if cf_resource_required cfg then Some (ARedirect EInvalidTarget p) else   (* resources never sent here *)
+    if andb (cf_resource_required cfg) (no_res (p_resources p)) then Some (ARedirect EInvalidTarget p) else
     if andb (cf_openid_required cfg) (negb (contains_openid (p_scopes p))) then Some (ARedirect EInvalidRequest p) else
     if andb (rt_contains (p_resp_type p) "id_token") (negb (contains_openid (p_scopes p)))
     then Some (ARedirect EInvalidRequest p) else
@@ -111,7 +115,7 @@ Definition client_for_par (cfg : config) (c : client) (pushed_redirect : string)
 
 (* ---- policy script: what the embedder's policy does on this invocation ---- *)
 Inductive pol_reply :=
-  | PolSuccess (sub granted : string)
+  | PolSuccess (sub granted : string) (resources : list string)   (* SetUserID, GrantScopes, GrantResources *)
   | PolInProgress
   | PolFail                         (* failure, plain/nil error: access_denied *)
   | PolFailWith (e : ecode).        (* failure with a goidc.Error *)
@@ -144,7 +148,7 @@ Definition render_aerr (cfg : config) (c : client) (e : aerr) : out :=
   match e with ALocal x => OErr x | ARedirect x p => nav_err cfg c p x end.
 
 Definition new_session (n : nat) (c : client) (p : params) : asession :=
-  mkASession (mint n KSessId) (c_id c) "" 0 0 0 0 "" 0 0 0%Z 0 "" p.
+  mkASession (mint n KSessId) (c_id c) "" 0 0 0 0 "" 0 0 0%Z 0 "" p [].
 
 (* what authenticate hands back: a finished response, or an error still to be rendered by the
    caller with the client it holds *)
@@ -165,8 +169,8 @@ Definition authenticate (w : world) (n : nat) (now : Z) (s : asession) (pol : po
         | RFail => Ret (AFail (ARedirect EInternalError (a_params s)))
         | _ => Ret (AFail (ARedirect code (a_params s)))
         end)
-  | PolSuccess sub granted =>
-      let s1 := s <| a_subject := sub |> <| a_granted := granted |> in
+  | PolSuccess sub granted res =>
+      let s1 := s <| a_subject := sub |> <| a_granted := granted |> <| a_granted_res := res |> in
       Touch (OA s1)
       (bind (get_client w (a_client s1)) (fun oc =>
        match oc with
@@ -183,8 +187,9 @@ Definition authenticate (w : world) (n : nat) (now : Z) (s : asession) (pol : po
              let '(tv, tid) := make_token n c GImplicit in
              let jkt := if cf_dpop_enabled cfg
                         then (if is_nil (a_jkt s2) then p_dpop_jkt (a_params s2) else a_jkt s2) else 0%N in
+             (* implicitGrantInfo copies the granted resources whether or not the feature is enabled *)
              let g := new_grant n now cfg tid GImplicit (a_subject s2) (a_client s2)
-                        (a_granted s2) (a_granted s2) jkt 0 in
+                        (a_granted s2) (a_granted s2) jkt 0 (a_granted_res s2) (a_granted_res s2) in
              Do (GSave g) (fun r => match r with RFail => Ret (AFail (ALocal EInternalError)) | _ => finish tv (negb (is_nil jkt)) end)
            else finish 0%N false in
          if negb (rt_contains rt "code") then
@@ -312,7 +317,7 @@ Definition push_auth (w : world) (n : nat) (now : Z) (r : preq) : prog out :=
 
 (* POST /bc-authorize *)
 Record breq := mkBReq { br_cred : cred; br_params : params; br_bind : bind_in; br_init_ok : bool;
-                        br_sub : string; br_granted : string }.
+                        br_sub : string; br_granted : string; br_granted_res : list string }.
 (* br_init_ok: the embedder's InitBackAuthFunc answer; the harness's function also fixes the
    subject and the granted scopes on the session, as a real one would *)
 Definition init_back_auth (w : world) (n : nat) (now : Z) (r : breq) : prog out :=
@@ -340,7 +345,8 @@ Definition init_back_auth (w : world) (n : nat) (now : Z) (r : breq) : prog out 
                    <| a_expires := (now + cf_ciba_lifetime cfg)%Z |>
                    <| a_jkt := if push then set_pop_jkt cfg (br_bind r) else 0%N |>
                    <| a_x5t := if push then set_pop_x5t cfg (br_bind r) else 0%N |>
-                   <| a_subject := br_sub r |> <| a_granted := br_granted r |> in
+                   <| a_subject := br_sub r |> <| a_granted := br_granted r |>
+                   <| a_granted_res := br_granted_res r |> in
         if negb (br_init_ok r) then Ret (OErr EAccessDenied) else
         save_a s (fun rs =>
           match rs with RFail => Ret (OErr EInternalError)
@@ -377,7 +383,7 @@ Definition notify_success (w : world) (n : nat) (now : Z) (a : id) (hg : hg_repl
             let '(tv, tid) := make_token n c GCiba in
             let g := with_refresh n now cfg c
                        (new_grant n now cfg tid GCiba (a_subject s) (a_client s) (a_granted s) (a_granted s)
-                          (a_jkt s) (a_x5t s)) in
+                          (a_jkt s) (a_x5t s) (grant_granted_res cfg (a_granted_res s)) (grant_granted_res cfg (a_granted_res s))) in
             Do (GSave g) (fun rs =>
             match rs with
             | RFail => Ret (false, [])
